@@ -7,6 +7,36 @@ HERE = os.path.dirname(os.path.abspath(__file__))
 ALL = ["C%02d" % i for i in range(1, 18)]
 
 CHECKS = {
+    "C09": dict(
+        category="model_checking",
+        text="TLC explores the complete abstract control graph (maddr, IR) of the control store extracted from the working tree with every "
+             "data-dependent input nondeterministic (Programmed, InRoutine, Completes, UndefinedNeverCompletes); the graph is bound to the code by "
+             "comparing MAC bits and successor sets of the real next-address function for all 512 x 256 x 2^9 forced control states; MUL/DIV loop "
+             "termination is run on the real machine for all 65 536 pairs x carry. Exhaustive, which is what this finite property needs.",
+        design_ref="DESIGN.md section 3 C09, 2.3",
+        note="Trusted: TLC; verif_restore/verif_snapshot hooks; the defined-opcode sets written in MC_Ctl.tla; Bound=40 steps for non-loop routines.",
+        technique="TLC exhaustive BFS of the control-flow graph of the tree's microprogram + whole-domain conformance of the real next-address function",
+    ),
+    "C10": dict(
+        category="model_checking",
+        text="TLC checks the decoder-shaped Bus.tla against a map-based reference for all 3 x 256 x 256 single operations and all 65 536 ordered "
+             "write-address pairs; every enumerated case is forced onto the real Bus and the signature of all cells C10 names is compared; random "
+             "read/write/set-input sequences of the real Bus are validated event by event against the specification.",
+        design_ref="DESIGN.md section 3 C10",
+        note="Trusted: TLC; the harness's signature/projection code; three pre-states (empty, busy, board-configured) as the state quantifier.",
+        technique="TLC exhaustive enumeration over (pre-state, address, byte) and address pairs, replayed into the real Bus; TLA+ trace validation of random op sequences",
+    ),
+    "C14": dict(
+        category="model_checking",
+        text="TLC BFS (depth 3, alphabet on both sides of every comparison, all 8 interrupt sources x 2 polarities, non-finite voltage classes) checks "
+             "the state and action statements of the property on Board.tla; every reached board state is restored on the real board and every action "
+             "replayed with the full board signature compared; the clamp rule is swept over f32 bit patterns (all 2^32 in the thorough tier); random "
+             "interleavings are trace-validated with the state invariant evaluated at every step.",
+        design_ref="DESIGN.md section 3 C14",
+        note="Trusted: TLC; millivolt-grid abstraction of f32 (exactness of the grid comparison and of the fan rpm formula measured over their whole "
+             "domain); Board::verif_restore hook; fan period tolerance of one count.",
+        technique="TLC BFS over board states with per-action properties, every transition replayed on the real board; trace validation; Rust-side f32 class sweep",
+    ),
     "C08": dict(
         category="model_checking",
         text="Exhaustive: TLC checks the algebraic facts named by the property on Alu.tla over all 2 097 152 points and "
